@@ -659,6 +659,8 @@ def gen_C05(rng, tier):
         out.append(('ff %s inverse 1 0' % be, 'inverse/zero'))
         for (x, e) in ((0, 0), (0, 1), (0, Q - 1), (0, 2**300), (ff_mont(1), 0), (rng.choice(nz0), 0), (ff_mont(Q - 1), Q - 1), (rng.choice(nz0), Q - 1)):
             out.append(('ff %s exp %d %d' % (be, x, e), 'exp/special'))
+        for e in (2 * (Q - 1), 3 * (Q - 1), (Q - 1) << 64, (Q - 1) ** 2, Q * (Q - 1), 2 * (Q - 1) + 1, ((Q - 1) << 256) + (Q - 1)):
+            out.append(('ff %s exp 0 %d' % (be, e), 'exp/zero-base/multiple-of-q-1'))
     for x in rng.sample(vals, min(len(vals), 12)):
         out.append(('ff noadx halve %d' % x, 'noadx/halve'))
         out.append(('ff noadx tomont %d' % x, 'noadx/tomont'))
@@ -732,6 +734,11 @@ def gen_C09(rng, tier):
         out.append(('ffg div %d 0 0' % al, 'div/zero-by-zero'))
     for (x, e) in ((0, 0), (0, 1), (0, PG - 1), (0, 2**100), (2**32 - 1, 0), (rng.choice(nzc), 0), (rng.choice(nzc), PG - 1)):
         out.append(('ffg exp %d %d' % (x, e), 'exp/special'))
+    # base 0 with exponents that are non-zero multiples of p-1 (a Fermat reduction of the exponent is
+    # valid for every base but 0: 0^(k(p-1)) = 0, not 0^0 = 1), also wider than one word, and their neighbours
+    for e in (2 * (PG - 1), 3 * (PG - 1), (PG - 1) << 64, (PG - 1) ** 2, (PG - 1) * 2**64 + (PG - 1), PG * (PG - 1), 2 * (PG - 1) + 1, (PG - 1) * (2**64 + 1) - 1):
+        out.append(('ffg exp 0 %d' % e, 'exp/zero-base/multiple-of-p-1'))
+        out.append(('ffg exp %d %d' % (rng.choice(nzc), e), 'exp/multiple-of-p-1'))
     # Montgomery reduction at the exact carry boundary: products with x*y*R^-1 = 1 and x*y = R^2 - small
     R64 = 2**64 % PG
     for _ in range(4):
